@@ -59,7 +59,7 @@ func Main(pre *dev.Dev) {
 		// device, the tree under test does not start from crypto/rand.Reader: that
 		// is C07's business (hist mode reports it); the fault-enumeration modes just
 		// cannot use the hook-free seam on such a tree.
-		if current() != io.Reader(pre) {
+		if c := current(); c != nil && c != io.Reader(pre) { // nil: a lazily initialised source, it will pick up crypto/rand.Reader (= the device) at first use
 			fail(4, "SEAM-UNAVAILABLE: the library's source is not the value crypto/rand.Reader had before its initialisation")
 		}
 	}
@@ -87,29 +87,37 @@ func Main(pre *dev.Dev) {
 		var p HistPlan
 		readJSON(in, &p)
 		var d *dev.Dev
-		var id func() (bool, string)
+		var id func(lazyOK bool) (bool, string)
 		switch p.Source {
 		case "hook":
 			if pre != nil {
 				fail(3, "WORKER-TROUBLE source=hook in a coldsim binary")
 			}
 			d = install()
-			id = func() (bool, string) { return current() == io.Reader(d), "source is no longer the installed device" }
+			id = func(bool) (bool, string) {
+				return current() == io.Reader(d), "source is no longer the installed device"
+			}
 		case "preinit":
 			if pre == nil {
 				fail(3, "WORKER-TROUBLE source=preinit needs the coldsim binary")
 			}
 			d = pre
-			id = func() (bool, string) {
+			id = func(lazyOK bool) (bool, string) {
 				c := current()
+				if c == nil && lazyOK {
+					return rand.Reader == io.Reader(pre), "crypto/rand.Reader itself was replaced"
+				}
 				return c == io.Reader(pre) && rand.Reader == io.Reader(pre), fmt.Sprintf("source is %T, not the value crypto/rand.Reader had at init", c)
 			}
 		case "real":
 			if pre != nil {
 				fail(3, "WORKER-TROUBLE source=real in a coldsim binary")
 			}
-			id = func() (bool, string) {
+			id = func(lazyOK bool) (bool, string) {
 				c := current()
+				if c == nil && lazyOK {
+					return true, ""
+				}
 				return c == rand.Reader, fmt.Sprintf("source is %T, not crypto/rand.Reader", c)
 			}
 		default:
